@@ -411,3 +411,267 @@ def c12(ctx):
                                                                'permuted_manifests': pairs[0][1].meta['permuted']}],
               dist={'pairs_identical': same, 'pairs_differing': differ,
                     'pairs_with_permuted_manifests': sum(1 for a, b in pairs if b.meta['permuted'])})
+
+
+# --------------------------------------------------------------------------- C13
+FORMATS5 = [None, 'gz', 'bz2', 'lzma', 'xz']
+
+
+def recompress_tree(t, manifests, assign):
+    """store every sub-Manifest of the tree in the format assign[logical name] (None = plain), bottom-up, and
+    rewrite the MANIFEST entries that refer to it (new name, true size, same hash names, true digests)"""
+    import re
+    names = {}                 # old path -> new path
+    # children before parents; a Manifest referenced from the Manifest of its own directory (Manifest.files) first
+    for m in sorted((x for x in manifests if x != 'Manifest'), key=lambda x: (-x.count('/'), 0 if 'Manifest.files' in x else 1)):
+        ino = t.lookup(m)
+        if ino is None:
+            continue
+        node = t.nodes[ino]
+        raw = OX.plain_bytes(m, node['data'])
+        if raw is None:
+            continue
+        lm = logical(m)
+        fmt = assign.get(lm)
+        new = lm + ('.' + fmt if fmt else '')
+        data = ET.compress(fmt, raw) if fmt else raw
+        d, name = os.path.split(m)
+        di = t.lookup(d)
+        t.unlink(di, name)
+        node['data'] = data
+        node['size'] = len(data)
+        t.link(di, os.path.basename(new), ino)
+        names[m] = new
+        # fix the references
+        for pm in manifests:
+            pm = names.get(pm, pm)
+            pino = t.lookup(pm)
+            if pino is None or pm == new:
+                continue
+            pnode = t.nodes[pino]
+            praw = OX.plain_bytes(pm, pnode['data'])
+            if praw is None:
+                continue
+            pd = os.path.dirname(pm)
+            lines = praw.decode('utf8').split('\n')
+            changed = False
+            for k, line in enumerate(lines):
+                f = line.split()
+                if len(f) >= 3 and f[0] == 'MANIFEST' and OX.norm(pd, OX.unescape(f[1])) == m:
+                    lines[k] = ET.entry_line('MANIFEST', os.path.relpath(new, pd) if pd else new, data, f[3::2])
+                    changed = True
+            if changed:
+                ndata = '\n'.join(lines).encode('utf8')
+                pf = ET.suffix_of(os.path.basename(pm))
+                pnode['data'] = ET.compress(pf, ndata) if pf else ndata
+                pnode['size'] = len(pnode['data'])
+    return names
+
+
+def name_clash(t, written):
+    """a file that is not one of the generated Manifests but has the logical name of one (a stray 'Manifest' beside
+    'Manifest.gz'): re-assigning formats would have to overwrite it"""
+    logic = {logical(m) for m in written}
+    return any(p not in written and logical(p) in logic and os.path.basename(p).startswith('Manifest') for p, _ in t.files())
+
+
+def gen_c13_transparent(r):
+    while True:
+        base = GT.Case()
+        t, files, written = GT.build_consistent(r, base, allow_multi=r.random() < 0.3)
+        muts = []
+        for _ in range(r.choice([0, 1, 1, 2])):
+            muts.append(GT.mutate(r, base, files, {}, r.choice(['content-same-size', 'content-other-size', 'delete', 'stray', 'stray-hidden', 'mtime', 'fifo'])))
+        if not name_clash(t, written):
+            break
+    base.meta['mutations'] = muts
+    base.meta['order_seed'] = r.randint(0, 5)
+    paths = [''] + [d for d in base.meta['dirs'] if d]
+    data_files = sorted(p for p in files if not os.path.basename(p).startswith('Manifest'))
+    ops = []
+    for _ in range(r.randint(2, 4)):
+        k = r.random()
+        if k < 0.5:
+            ops.append(['verify', r.choice(paths), r.choice([1, 1, 2, 3]), r.choice([[], [], [1500000000]])])
+        elif k < 0.7:
+            ops.append(['find_path_entry', r.choice(data_files + ['absent', 'foo'])])
+        elif k < 0.8:
+            ops.append(['verify_path', r.choice(data_files + ['absent'])])
+        elif k < 0.9:
+            ops.append(['entry_dict', r.choice(paths)])
+        else:
+            ops.append(['find_dist_entry', 'dist-%d.tar.gz' % r.randint(0, 3), r.choice(paths)])
+    base.ops = ops
+    subs = sorted({logical(m) for m in written if m != 'Manifest'})
+    variants = [base]
+    import copy
+    for _ in range(3):
+        v = copy.copy(base)
+        v.meta = dict(base.meta)
+        v.tree = base.tree.clone()
+        assign = {lm: r.choice(FORMATS5) for lm in subs}
+        v.meta['assign'] = assign
+        recompress_tree(v.tree, sorted(written), assign)
+        variants.append(v)
+    return variants
+
+
+def mask_entry_dict(x):
+    """results that legitimately name Manifest files (entry_dict lists MANIFEST entries): drop those entries"""
+    return x
+
+
+def c13(ctx):
+    quick = ctx.tier == 'quick'
+    r = ctx.rng('c13')
+    # (1) transparency of reading
+    n1 = 250 if quick else 4000
+    groups = [gen_c13_transparent(r) for _ in range(n1)]
+    flat = [v for g in groups for v in g]
+    with ET.Scratch() as sc:
+        res = PT.run_cases(ctx, flat, 'tree:compression-assignments', sc)
+    PT.reclassify(ctx, 'verification / lookup over compressed sub-Manifests differs from the reference (C13)')
+    same = differ = 0
+
+    def strip(out, ops):
+        o2 = []
+        for op, y in zip(ops, out):
+            if op[0] == 'entry_dict' and y[0] == 'ok':
+                y = ['ok', [[d, [it for it in items if not (isinstance(it[1], list) and len(it[1]) > 1 and it[1][1] == 'MANIFEST')]] for d, items in y[1]]]
+            o2.append(y)
+        return o2
+    k = 0
+    for g in groups:
+        rs = res[k:k + len(g)]
+        k += len(g)
+        for which in (1, 2):
+            outs = [x[which] for x in rs]
+            if any(o[0] != 'ok' for o in outs):
+                continue
+            ref = strip(outs[0][1], g[0].ops)
+            for v, o in zip(g[1:], outs[1:]):
+                if strip(o[1], v.ops) != ref:
+                    differ += 1
+                    if which == 1:
+                        ctx.violation('spec', f'results depend on the compression of sub-Manifests (assignment {v.meta["assign"]})',
+                                      {'meta': meta_of(v), 'ops': v.ops, 'plain_layout': slim(outs[0][1]), 'this_layout': slim(o[1]),
+                                       'tree': PT.describe(v.tree)})
+                    else:
+                        ctx.violation('correspondence', 'tree:compression-assignments: the model itself is not transparent', {'where': 'c13', 'meta': meta_of(v)})
+                elif which == 1:
+                    same += 1
+    ctx.count('tree:compression-assignments', len(flat), len(groups),
+              samples=[{'files': groups[0][0].meta.get('files'), 'manifests': groups[0][0].meta.get('manifests'), 'assignments': [v.meta.get('assign') for v in groups[0][1:]], 'ops': groups[0][0].ops}],
+              dist={'variant_runs_equal_to_base': same, 'variant_runs_differing': differ})
+    # (2) the watermark rule, boundaries taken from a first run
+    n2 = 250 if quick else 4000
+    firsts = []
+    for _ in range(n2):
+        while True:
+            c = GT.Case()
+            t, files, written = GT.build_consistent(r, c, allow_multi=False, dups=False)
+            c.meta['mutations'] = [GT.mutate(r, c, files, written, r.choice(['content-other-size', 'stray', 'delete']))] if r.random() < 0.5 else []
+            if not name_clash(t, written) or r.random() < 0.1:
+                break
+        c.meta['order_seed'] = r.randint(0, 3)
+        assign = {logical(m): r.choice(FORMATS5) for m in written if m != 'Manifest'}
+        recompress_tree(t, sorted(written), assign)
+        c.meta['assign'] = assign
+        t.hardlinks = True
+        c.hash_names = set(GT.GOOD_HASHES)
+        c.opts = (r.choice(PT.HASHSETS), r.random() < 0.5, None, None, 'default', None, None, False)
+        c.ops = [['update', '', [], []], ['save', [], 1, [], [], []], ['files']]
+        firsts.append(c)
+    sizes = []
+    with ET.Scratch() as sc:
+        for c in firsts:
+            b, s = sc.fresh()
+            try:
+                c.tree.realise(b, s)
+                out = ET.run_impl(b, c.top, c.opts, c.allow_create, c.allow_xdev, c.ops, GT.order_key_for(c.meta['order_seed']), [])
+            except Exception as e:
+                out = ['harness-error', repr(e)]
+            finally:
+                sc.cleanup(b, s)
+            us = []
+            if out[0] == 'ok' and len(out[1]) == 3 and out[1][2][0] == 'ok':
+                for p, d, mt in out[1][2][1]:
+                    if os.path.basename(p).startswith('Manifest') and p != 'Manifest':
+                        raw = OX.plain_bytes(p, d if isinstance(d, bytes) else d.encode('latin1'))
+                        if raw is not None:
+                            us.append(len(raw))
+            sizes.append(us)
+    seconds = []
+    for c, us in zip(firsts, sizes):
+        cand = [0, 1, 10**6] + [u + dlt for u in us for dlt in (-1, 0, 1)]
+        w1 = r.choice(cand)
+        w2 = r.choice(cand)
+        fmt = r.choice(['gz', 'bz2', 'lzma', 'xz', None])
+        force = 1 if r.random() < 0.7 else 0
+        c.ops = [['update', '', [], []], ['save', [], 1, [], [], []],
+                 ['save', [], force, [], [w1], [fmt] if fmt else []], ['files'], ['loaded'],
+                 ['save', [], 1, [], [w2], [fmt] if fmt else []], ['files'], ['loaded'], ['reload'], ['verify', '', 1, []]]
+        c.meta['watermarks'] = [w1, w2]
+        c.meta['force'] = force
+        c.meta['fmt'] = fmt
+        seconds.append(c)
+    with ET.Scratch() as sc:
+        res = PT.run_cases(ctx, seconds, 'tree:watermark', sc)
+    PT.reclassify(ctx, 'save with a compression watermark differs from the reference (C13)')
+    rule_ok = rule_bad = boundary = 0
+    for c, i, m in res:
+        if i[0] != 'ok' or any(x[0] != 'ok' for x in i[1]) or len(i[1]) != len(c.ops):
+            continue
+        out = i[1]
+        probs = []
+        for step, (fi, li, w, forced) in enumerate(((3, 4, c.meta['watermarks'][0], c.meta['force']), (6, 7, c.meta['watermarks'][1], 1))):
+            files = files_of(out[fi][1])
+            loaded = set(out[li][1])
+            if c.tree.link_paths():
+                continue
+            per_logical = {}
+            for p in files:
+                if os.path.basename(p).startswith('Manifest') and OX.parse(p, files[p]) is not None and (p in loaded):
+                    per_logical.setdefault(logical(p), []).append(p)
+            for lm, ps in per_logical.items():
+                if len(ps) != 1:
+                    probs.append(f'save {step + 1}: {len(ps)} files for the logical Manifest {lm}: {ps}')
+                    continue
+                p = ps[0]
+                u = len(OX.plain_bytes(p, files[p]))
+                compressed = ET.suffix_of(os.path.basename(p)) is not None
+                if u in (w - 1, w, w + 1):
+                    boundary += 1
+                if p == 'Manifest':
+                    continue          # a top-level file named Manifest is never compressed implicitly
+                if lm == 'Manifest':
+                    probs.append(f'save {step + 1}: the top-level Manifest was compressed implicitly: {p}')
+                elif any(q not in loaded and logical(q) == lm for q in files):
+                    continue          # the other name is taken by a file that is not a Manifest: the format is kept
+                elif forced and compressed != (u >= w):
+                    probs.append(f'save {step + 1}: {p} has {u} uncompressed bytes, watermark {w}: stored {"compressed" if compressed else "plain"}')
+            # leftovers: a Manifest-named file that is not loaded, has the logical name of a loaded one and was
+            # not there (with these bytes) before the run
+            orig = {q: c.tree.nodes[ino]['data'] for q, ino in c.tree.files()}
+            for p in files:
+                if os.path.basename(p).startswith('Manifest') and p not in loaded and logical(p) in per_logical and p != 'Manifest':
+                    if orig.get(p) != files[p]:
+                        probs.append(f'save {step + 1}: leftover file {p} beside {per_logical[logical(p)]}')
+            # parents reference the names on disk, everything in use is referenced (exactness of MANIFEST entries)
+            used, refs = OX.in_use(files)
+            for mm, e, tgt in refs:
+                if tgt not in files:
+                    probs.append(f'save {step + 1}: {mm} references {tgt} which does not exist')
+        v = out[-1]
+        if not (v[0] == 'ok' and v[1][0] == 1):
+            probs.append(f'the tree does not verify afterwards: {str(v)[:120]}')
+        if probs:
+            rule_bad += 1
+            if not known_finding(ctx, 'C13', c, 'watermark', probs):
+                ctx.violation('spec', f'compression watermark rule broken: {probs[:3]}',
+                              {'meta': meta_of(c), 'ops': c.ops, 'opts': list(c.opts), 'impl': slim(out), 'tree': PT.describe(c.tree)})
+        else:
+            rule_ok += 1
+    ctx.count('tree:watermark', len(seconds), len(seconds), samples=[{'files': seconds[0].meta.get('files'), 'assign': seconds[0].meta.get('assign'), 'ops': seconds[0].ops}],
+              dist={'runs_rule_ok': rule_ok, 'runs_rule_broken': rule_bad, 'manifests_at_watermark_plus_minus_1': boundary,
+                    'runs_not_completing': len(seconds) - rule_ok - rule_bad})
